@@ -72,13 +72,15 @@ Ltac eval_ground_isdigit :=
          | |- context [isdigit [?x]] =>
              lazymatch x with Ascii _ _ _ _ _ _ _ _ => let v := eval vm_compute in (isdigit [x]) in change (isdigit [x]) with v end
          end.
+Lemma checked_total v : exists o, checked v = Ok o.
+Proof. unfold checked. destruct (known_base v); eauto. Qed.
 Ltac leg_case t :=
   let h := fresh "h" in let h2 := fresh "h2" in let r2 := fresh "r2" in let D := fresh "D" in
   let p0 := fresh "p0" in let h' := fresh "hh" in
-  cbn [app list_ascii_of_string]; cbn [split_c]; cbn -[isdigit int_of_digits];
-  destruct (split_c c_dot t) as [|h [|h2 r2]]; cbn -[isdigit int_of_digits]; eval_ground_isdigit; cbn -[isdigit int_of_digits]; try solve [eauto];
-  match goal with |- context [isdigit ?c] => destruct (isdigit c) eqn:D end; try solve [eauto];
-  destruct h as [|p0 h']; [cbn in D; discriminate|]; cbn -[isdigit int_of_digits]; destruct (is_digit p0); eauto.
+  cbn [app list_ascii_of_string]; cbn [split_c]; cbn -[isdigit int_of_digits checked];
+  destruct (split_c c_dot t) as [|h [|h2 r2]]; cbn -[isdigit int_of_digits checked]; eval_ground_isdigit; cbn -[isdigit int_of_digits checked]; try solve [eauto using checked_total];
+  match goal with |- context [isdigit ?c] => destruct (isdigit c) eqn:D end; try solve [eauto using checked_total];
+  destruct h as [|p0 h']; [cbn in D; discriminate|]; cbn -[isdigit int_of_digits checked]; destruct (is_digit p0); eauto using checked_total.
 
 Theorem leg_parse_total : forall s, exists o, leg_parse s = Ok o.
 Proof.
